@@ -1,3 +1,4 @@
 pub mod ast;
+pub mod base;
 pub mod text;
 pub mod typed;
